@@ -46,7 +46,7 @@ def parseable(lst):
     return True
 
 
-def build_obj(h, lst, variant, path, hdr=(), salt=0, nov=False):
+def build_obj(h, lst, variant, path, hdr=(), salt=0, nov=False, quote=False):
     """hdr: header-only sections (only a parsed file can have them): `[A]` lines placed at section
     boundaries chosen by `salt` (after the group-less keys, between two sections, at the end)."""
     s = []
@@ -66,6 +66,8 @@ def build_obj(h, lst, variant, path, hdr=(), salt=0, nov=False):
                 if lines and not lines[-1].startswith(b"["):
                     lines.append(b"")
                 lines.append(bytes(e["k"]))
+            elif quote and e["v"]:
+                lines.append(bytes(e["k"]) + b"=\"" + bytes(e["v"]) + b"\"")      # read quoted (the quotes are not part of the value)
             else:
                 lines.append(bytes(e["k"]) + b"=" + bytes(e["v"]))
         for n, g in enumerate(sorted(hdr)):
@@ -185,13 +187,17 @@ def inputs_unchanged(exe, pairs, verdict, pid):
             # member of a history (objects of the last two kinds are marked for release by the library's own merge)
             how = (i + h) % 3
             d = "%s/%s/etc" % (root, nm)
-            bo = build_obj(h, lst, 3, d + "/f.conf", nov=True)
+            bo = build_obj(h, lst, 3, d + "/f.conf", nov=True, quote=((i // 3 + h) % 2 == 0))       # one side's values in double quotes
             if how == 1:
                 bo[-1] = "readdirs %d %s %s %s %s x3d x23" % (h, hx("%s/%s/usr" % (root, nm)), hx(d), hx("f"), hx("conf"))
             elif how == 2:
                 bo[-1] = "readhist %d %s %s %s %s x3d x23" % (h, hx("%s/%s/usr" % (root, nm)), hx(d), hx("f"), hx("conf"))
             s += bo
-        s += ["dumpx 1", "dumpx 2", "merge 3 1 2", "dumpx 1", "dumpx 2", "get String 2 - x78", "get Int 2 - x78", "free 3", "free 1", "free 2"]
+        # (what a later write of either input produces belongs to "unchanged" too: the bytes of a write before and after the merge)
+        wd = hx(root + "/w")
+        s += ["mkdir %s" % wd, "dumpx 1", "dumpx 2", "write 1 %s %s" % (wd, hx("b0")), "write 2 %s %s" % (wd, hx("o0")), "merge 3 1 2", "dumpx 1", "dumpx 2",
+              "write 1 %s %s" % (wd, hx("b1")), "write 2 %s %s" % (wd, hx("o1"))] + ["cat %s" % hx(root + "/w/" + n_) for n_ in ("b0", "o0", "b1", "o1")] + [
+              "get String 2 - x78", "get Int 2 - x78", "free 3", "free 1", "free 2"]
         cases.append((i, s))
     res = core.run_cases(exe, cases)
     n = 0
@@ -206,6 +212,15 @@ def inputs_unchanged(exe, pairs, verdict, pid):
         if len(d) != 4 or any(x["st"] is None for x in d):
             raise core.ToolFailure("harness could not build the merge inputs: %s" % [e for e in out["ev"] if e.get("rc") not in (None, "ECONF_SUCCESS")][:2])
         n += 1
+        cats = [e.get("data") for e in out["ev"] if e["op"] == "cat"]
+        if len(cats) != 4 or any(c_ is None for c_ in cats):
+            raise core.ToolFailure("merge-inputs: the inputs could not be written: %s" % [e for e in out["ev"] if e["op"] == "write"][:2])
+        if len(cats) == 4 and (cats[0] != cats[2] or cats[1] != cats[3]):
+            role = "base" if cats[0] != cats[2] else "override"
+            verdict.violation("%s:merge-inputs:%s-written-differently" % (pid, role), dict(case, before=cats[0 if role == "base" else 1], after=cats[2 if role == "base" else 3]),
+                              "econf_mergeFiles changed what a later write of its %s input produces\nbase: %s\nover: %s\nwritten before the merge:\n%s\nafter:\n%s" % (
+                                  role, show(b), show(o), cats[0 if role == "base" else 1], cats[2 if role == "base" else 3]))
+            continue
         for role, a, z in (("base", d[0], d[2]), ("override", d[1], d[3])):
             if a["st"] != z["st"]:
                 diff = [(x, y) for sa, sz in zip(a["st"]["secs"], z["st"]["secs"]) for x, y in zip(sa["keys"], sz["keys"]) if x != y][:2]
